@@ -420,6 +420,30 @@ pub fn gen(tier: &str, seed: u64, out: &mut Out) {
         }
         push(out, c);
     } } }
+    // (a5) RUNS of equal coefficients (all equal; a window of 3..5 equal non-zero values at every position; blocks a,a,b,b,..):
+    //      value coincidences between neighbouring coefficients, which random draws from -9..9 almost never produce at three
+    //      places in a row (incremental "k*a_k from (k-1)*a_(k-1)" schemes, run-length shortcuts)
+    for len in 3..=9usize { for ty in tys {
+        let mut pats: Vec<(Vec<i64>, Vec<i64>)> = vec![];
+        for c in [1i64, -3, 7] { pats.push((vec![c; len], vec![if c == 1 { 0 } else { 2 }; len])); }
+        for w in 3..=5usize { if w > len { continue; } for s0 in 0..=(len - w) {
+            if quick && (s0 + w + len) % 2 == 1 && s0 + w != len { continue; }
+            let c = [2i64, -5, 4][(s0 + w) % 3]; let ci = [-1i64, 3, 0][(s0 + len) % 3];
+            let mut re: Vec<i64> = (0..len).map(|i| ((i as i64 * 5 + s0 as i64) % 7) - 3).collect(); let mut im: Vec<i64> = (0..len).map(|i| ((i as i64 * 3 + w as i64) % 5) - 2).collect();
+            for i in s0..s0 + w { re[i] = c; im[i] = ci; }
+            if re[len - 1] == 0 { re[len - 1] = 1; }
+            pats.push((re, im));
+        } }
+        pats.push(((0..len).map(|i| if (i / 2) % 2 == 0 { 3 } else { -2 }).collect(), (0..len).map(|i| if (i / 3) % 2 == 0 { 1 } else { -1 }).collect()));
+        for (k, (re, im)) in pats.into_iter().enumerate() {
+            let lq = 1 + (k + len) % 3;
+            let mut c = json!({"ty": ty, "p": re, "q": coeffs(&mut rng, lq, 9, true), "form": if (k + len) % 2 == 0 { "ref" } else { "own" }, "bat": "full",
+                               "xs": [1, -1, 2, 0, -2, 1], "ss": [rng.gen_range(-9..=9i64), 0, -1], "beyond": (k % 2) as i64});
+            if ty == "cx" { c["pi"] = json!(im); c["qi"] = json!(coeffs(&mut rng, lq, 9, false));
+                c["xs"] = json!([0, 1, -1, 0, 1, -2]); c["xsi"] = json!([1, 1, 1, -2, -1, 0]); c["ssi"] = json!([rng.gen_range(-9..=9i64), 1, 0]); }
+            push(out, c);
+        }
+    } }
     // (a2) aliasing: the same object on both sides, every length 0..9 (degree 0..8 and empty), every element type
     for len in 0..=9usize { for ty in ["rat", "f64", "cx", "ratq"] { for rep in 0..(if quick { 1 } else { 4 }) {
         if ty == "ratq" && len > 5 { continue; }
